@@ -608,4 +608,27 @@ def generate(api):
                    {'Clear': 'BClear', 'SourceOver': 'BSourceOver', 'Xor': 'BXor'}.get(gblend.group(1), 'BOther')))
     section('clip_modes', clip_modes)
 
+    def mask_shape():
+        mk = strip_comments(api.rd('crates/resvg/src/mask.rs'))
+        body = body_of(mk, 'apply')
+        empty = re.search(r"if\s+mask\.root\(\)\.children\(\)\.is_empty\(\)\s*\{\s*pixmap\.fill\(tiny_skia::Color::TRANSPARENT\);\s*return;\s*\}", body) is not None
+        order = [m.group(0) for m in re.finditer(
+            r"alpha_mask\.fill_path\(|PathBuilder::from_rect\(mask\.rect\(\)\.to_rect\(\)\)|render_nodes\(mask\.root\(\)|mask_pixmap\.apply_mask\(&alpha_mask\)|"
+            r"self::apply\(mask, ctx, transform, pixmap\)|Mask::from_pixmap\(mask_pixmap\.as_ref\(\), mask_type\)|pixmap\.apply_mask\(&mask\)", body)]
+        want = ['alpha_mask.fill_path(', 'PathBuilder::from_rect(mask.rect().to_rect())', 'render_nodes(mask.root()', 'mask_pixmap.apply_mask(&alpha_mask)',
+                'self::apply(mask, ctx, transform, pixmap)', 'Mask::from_pixmap(mask_pixmap.as_ref(), mask_type)', 'pixmap.apply_mask(&mask)']
+        kinds = dict(re.findall(r"usvg::MaskType::(\w+)\s*=>\s*tiny_skia::MaskType::(\w+)", body))
+        rg = strip_comments(body_of(api.rd('crates/resvg/src/render.rs'), 'render_group'))
+        seq = [m.group(0) for m in re.finditer(r"crate::filter::apply\(|crate::clip::apply\(|crate::mask::apply\(|opacity:\s*group\.opacity\(\)\.get\(\)", rg)]
+        return ("(* mask.rs :: apply, render.rs :: render_group (shape of the code) *)\n"
+                "Definition mask_empty_is_transparent : bool := %s.\n"
+                "Definition mask_steps_in_order : bool := %s.\n"
+                "Definition mask_luminance_kept : bool := %s.\n"
+                "Definition mask_alpha_kept : bool := %s.\n"
+                "Definition group_order_filter_clip_mask_opacity : bool := %s.\n"
+                % tuple('true' if b else 'false' for b in (
+                    empty, order == want, kinds.get('Luminance') == 'Luminance', kinds.get('Alpha') == 'Alpha',
+                    [x.split('(')[0].strip() for x in seq] == ['crate::filter::apply', 'crate::clip::apply', 'crate::mask::apply', 'opacity: group.opacity'])))
+    section('mask_shape', mask_shape)
+
     api.write_gen('PixelTables.v', "\n".join(out))
